@@ -56,7 +56,18 @@ let rec show (j : jv) : string =
 
 let handle op args =
   match op, args with
-  | "schema", id :: toks -> Hashtbl.replace tables id (Fam_rt.parse_schema_names toks); ["ok"]
+  | "schema", id :: toks ->
+    let (s, nm) = Fam_rt.parse_schema_names toks in
+    Hashtbl.replace tables id (s, nm);
+    (* the hypothesis of the C20 theorems about the schema table, checked on every schema used *)
+    if JsonMsgValid.json_schema_ok s nm then ["ok"] else ["schema-not-ok"]
+  | "cls", id :: eu :: toks ->
+    let (s, nm) = table id in
+    if not (JsonMsgValid.json_core s nm) then ["not-core"] else
+    let (v, _) = Fam_msg.parse_value toks in
+    let v = Fam_rt.norm_nan s 0 v in
+    let valid strict = JsonMsgValid.json_valid strict (eu = "1") s nm (Lazy.force Fam_rt.fuel_nat) Datatypes.O v in
+    if valid true then ["v"] else if valid false then ["f11"] else ["nv"]
   | "enc", id :: bits :: toks ->
     let (s, nm) = table id in
     let (v, rest) = Fam_msg.parse_value toks in
